@@ -138,7 +138,7 @@ const confusableRule = "; confusable selectors: 2-4 matches over paths that read
 	"outside and inside quantifier bodies, each in two spellings, on documents where some of them resolve and others are absent; oracle: reference interpreter; non-trivial = resolving and absent ones together"
 
 func init() {
-	for _, n := range []string{"TestC05_Confusable", "TestC07_Confusable"} {
+	for _, n := range []string{"TestC05_Confusable", "TestC07_Confusable", "TestC05_AfterQuantifier"} {
 		n := n
 		replayers[n] = func(t *testing.T, raw json.RawMessage) {
 			var c EvalCase
